@@ -120,6 +120,12 @@ def run(ctx):
             final = "commit"
         elif point == "reject_integrity":
             opts["sri"] = ref.sri("sha256", data + b"x")
+            others = [e for e in model.index.values() if model.content.get(ref.sri_address(e["integrity"])) not in (None, data)
+                      and e["integrity"].startswith("sha256-")]
+            if others and rng.random() < 0.5:
+                # declare the address of content that IS in the cache (some other entry's), while writing different bytes
+                opts["sri"] = rng.choice(others)["integrity"]
+                shared_content = True
             final = "commit"
         req = {"op": "writer", "cache": cache, "opts": opts, "chunks": [ctx.data(c) for c in chunks], "final": final}
         if keyed:
@@ -215,5 +221,5 @@ def run(ctx):
         n = 0
         for v in ("astd", "tok"):
             n += san.asan(ctx, v, lambda c: san.writer_script(rng, c, 400, 100000), work, f"abandon-{v}")
-        n += san.miri(ctx, "miri-sync", lambda c: san.writer_script(rng, c, 50, 10000, modes=("sync",)), work, "abandon-mirisync")
+        n += san.miri(ctx, "miri-sync", lambda c: san.writer_script(rng, c, 50, 3000, modes=("sync",)), work, "abandon-mirisync")
         ctx.extra["sanitizer_replay_ops"] = n
